@@ -60,7 +60,7 @@ fn run(case: &str) -> String {
     let bang = parts[1] == "!";
     let ms = parse_members(parts[2]);
     // a private sandbox: sb/in/arch.zip, and sb/tmp as the place where temporary directories are created
-    let sb = tempfile::Builder::new().prefix("zipx").tempdir_in("/verif/build/run").unwrap();
+    let sb = tempfile::Builder::new().prefix("zipx").tempdir_in(std::env::var("VERIF_RUN_DIR").unwrap_or_else(|_| "/verif/build/run".to_string())).unwrap();
     let indir = sb.path().join("in");
     let tmp = sb.path().join("tmp");
     std::fs::create_dir_all(&indir).unwrap();
